@@ -359,6 +359,12 @@ def saslprep(source, param="value"):
         if not stringprep.in_table_b1(c)
     )
 
+    # unassigned code points (stringprep A.1) have to be refused *before* normalizing:
+    # the interpreter's NFKC tables are newer than the unicode 3.2 ones stringprep
+    # is defined over, and would rewrite some of them into assigned characters.
+    if any(stringprep.in_table_a1(c) for c in data):
+        raise ValueError("unassigned code points forbidden in " + param)
+
     # normalize to KC form
     data = unicodedata.normalize("NFKC", data)
     if not data:
